@@ -11,6 +11,8 @@ COMMON_ASSUMPTIONS = [
     "A-DET: interpreted functions are deterministic apart from calls the sidecar marks nondeterministic",
     "A-ATTR: attribute access resolves as the class hierarchy read from the source says (no __getattr__, no monkey patching, no __eq__ overrides on objects under contract)",
     "A-GIL: no threads; A-MEM: no MemoryError/RecursionError; A-312: CPython 3.12 generator semantics",
+    "A-ITER: a `for` over a dict, list or deque walks a snapshot taken at the loop head: CPython's RuntimeError for a dict that changes size during iteration is "
+    "not modelled (a body that mutates the container it iterates is only seen by the native tier); equal-but-not-identical callables (bound methods) are not modelled",
     "termination is not proved",
     "logger.* and print calls are assumed effect-free",
 ]
